@@ -37,6 +37,8 @@ def initial_pool():
     r4 = TR(duration=DU(months=1), end_point=TP(year=2016, month_of_year=3, day_of_month=31, time_zone_hour=1))
     r1 = TR(repetitions=2, start_point=TP(year=2015, week_of_year=53, day_of_week=7), end_point=TP(year=2016, day_of_year=10))
     r3n = TR(repetitions=3, start_point=TP(year=2016, month_of_year=1, day_of_month=31), duration=DU(months=1))
+    r_one = TR(repetitions=1, start_point=TP(year=2016, day_of_year=60), duration=DU(days=1))      # normalised to one point
+    r_zero = TR(duration=DU(seconds=0), end_point=TP(year=2016, month_of_year=2, day_of_month=29))  # zero interval
     d_dec = DU(minutes=0.55)                               # arithmetic with it leaves float noise in the seconds
     z_neg = TZ(hours=-3, minutes=-30)
     z_half = TZ(hours=0, minutes=30)
@@ -44,7 +46,7 @@ def initial_pool():
     t_wd = TP(truncated=True, day_of_week=3)
     return [("p_cal", p_cal), ("p_ord24", p_ord24), ("p_week", p_week), ("p_cal2", p_cal2), ("t_hour", t_hour),
             ("t_day", t_day), ("d_unit", d_unit), ("d_week", d_week), ("d_nom", d_nom), ("d_neg", d_neg),
-            ("d_empty", d_empty), ("z_known", z_known), ("z_unknown", z_unknown), ("r3", r3), ("r4", r4), ("r1", r1), ("r3n", r3n), ("t_dom", t_dom), ("t_wd", t_wd), ("d_dec", d_dec), ("z_neg", z_neg), ("z_half", z_half)]
+            ("d_empty", d_empty), ("z_known", z_known), ("z_unknown", z_unknown), ("r3", r3), ("r4", r4), ("r1", r1), ("r3n", r3n), ("r_one", r_one), ("r_zero", r_zero), ("t_dom", t_dom), ("t_wd", t_wd), ("d_dec", d_dec), ("z_neg", z_neg), ("z_half", z_half)]
 
 
 def kind_of(o):
@@ -357,7 +359,7 @@ def vacuity(tier, counters, outcomes):
 
 def describe(tier):
     return {
-        "rule": "pool of 22 values (points in 3 representations incl. 24:00, a decimal form, a custom dump format, two "
+        "rule": "pool of 24 values (points in 3 representations incl. 24:00, a decimal form, a custom dump format, two "
                 "truncated points; 5 durations; known/unknown zones; 3 recurrences); %d operations; every first event "
                 "over the initial pool, then every second event with at least one operand taken from the first event's "
                 "results (incl. linked sub-objects), other operands from the initial pool%s; deep slot snapshots of all "
